@@ -40,6 +40,10 @@ pub enum TSpec {
     Own { kind: OwnKind, cont: ContKind, leaves: Vec<Lid>, ctor: Ctor, poison: bool },
     /// member wrapped in a drop-counting tag
     Tagged(usize, Box<TSpec>),
+    /// a collection over `&mut &Leaf` members (mutable borrows of *shared* references, which
+    /// may repeat). Built with `new` if the compiler accepts the data as `OwnedLockable`
+    /// (it must not), otherwise with the checked constructor.
+    MutRefs { kind: OwnKind, cont: ContKind, members: Vec<Lid> },
     /// a bare container nested as a member (`(A, Vec<B>)`, `[Vec<_>; 2]`, ...): no collection around it
     Group { cont: ContKind, members: Vec<TSpec> },
     /// a collection built with the unchecked-at-runtime constructors (`new` / `new_ref` /
@@ -137,6 +141,8 @@ pub enum Release {
 pub enum NonAcqOp {
     /// `format!("{:?}", target)`
     Debug,
+    /// `format!("{:#?}", target)` (alternate form, what `dbg!` uses)
+    DebugPretty,
     /// `write!(sink, "{:?}", target)` into a sink that fails after n bytes
     DebugLimited(u16),
     /// Debug formatting while the payload's own Debug impl returns Err
@@ -161,6 +167,8 @@ pub enum BodyOp {
     Panic,
     GateOpen(usize),
     GateWait(usize),
+    /// wait until thread .0 is blocked in a raw acquisition of lock .1
+    WaitBlocked(usize, Lid),
     NonAcq(NonAcqOp, usize),
 }
 
@@ -195,6 +203,8 @@ pub enum Step {
     Destroy(usize, Dtor),
     /// run the inner step from inside a destructor while an unrelated (injected) panic unwinds
     InUnwind(Box<Step>),
+    /// wait until thread .0 is blocked in a raw acquisition of lock .1
+    WaitBlocked(usize, Lid),
 }
 
 #[derive(Clone, PartialEq, Eq, Debug, Serialize, Deserialize)]
@@ -333,6 +343,18 @@ impl WorldSpec {
                     path.pop();
                 }
             }
+            TSpec::MutRefs { members, .. } => {
+                for (i, l) in members.iter().enumerate() {
+                    let k = self.leaves[*l];
+                    let mut p = poison.clone();
+                    for d in 0..k.layers() {
+                        p.push(PoisonId::Leaf(*l, d));
+                    }
+                    let mut pp = path.clone();
+                    pp.push(i as u8);
+                    out.push(FlatLeaf { lid: *l, kind: k, path: pp, poison: p, unit: None });
+                }
+            }
             TSpec::OnData { data, poison: pz, .. } => {
                 if *pz {
                     poison.push(match root {
@@ -416,6 +438,11 @@ impl WorldSpec {
                     node_path.pop();
                 }
             }
+            TSpec::MutRefs { members, .. } => {
+                for l in members {
+                    (0..self.leaves[*l].layers()).for_each(|d| out.push(PoisonId::Leaf(*l, d)));
+                }
+            }
             TSpec::OnData { data, poison, .. } => {
                 if *poison {
                     out.push(match root {
@@ -460,6 +487,7 @@ impl WorldSpec {
             TSpec::Group { members, .. } => members.iter().for_each(|m| self.elems_rec(m, out)),
             TSpec::Own { leaves, .. } => leaves.iter().for_each(|l| out.push(Elem::Leaf(*l))),
             TSpec::OnData { data, .. } => self.datas[*data].leaves.iter().for_each(|l| out.push(Elem::Leaf(*l))),
+            TSpec::MutRefs { members, .. } => members.iter().for_each(|l| out.push(Elem::Leaf(*l))),
         }
     }
 
@@ -482,6 +510,7 @@ impl WorldSpec {
             TSpec::Coll { members, .. } => self.has_dup(t) || members.iter().any(|m| self.any_dup(m)),
             TSpec::Shared(i) => self.any_dup(&self.targets[*i]),
             TSpec::Tagged(_, inner) => self.any_dup(inner),
+            TSpec::MutRefs { .. } => self.has_dup(t),
             TSpec::Group { members, .. } => members.iter().any(|m| self.any_dup(m)),
             _ => false,
         }
@@ -499,6 +528,9 @@ impl WorldSpec {
             TSpec::Own { kind: OwnKind::Ref, .. } => Some(CollKind::Ref),
             TSpec::Own { kind: OwnKind::Retry, .. } => Some(CollKind::Retry),
             TSpec::OnData { kind, .. } => Some(*kind),
+            TSpec::MutRefs { kind: OwnKind::Boxed, .. } => Some(CollKind::Boxed),
+            TSpec::MutRefs { kind: OwnKind::Ref, .. } => Some(CollKind::Ref),
+            TSpec::MutRefs { kind: OwnKind::Retry, .. } => Some(CollKind::Retry),
             _ => None,
         }
     }
@@ -509,7 +541,7 @@ impl WorldSpec {
             TSpec::Shared(i) => self.depth(&self.targets[*i]),
             TSpec::Tagged(_, inner) => self.depth(inner),
             TSpec::Group { members, .. } => members.iter().map(|m| self.depth(m)).max().unwrap_or(0),
-            TSpec::Own { .. } | TSpec::OnData { .. } => 1,
+            TSpec::Own { .. } | TSpec::OnData { .. } | TSpec::MutRefs { .. } => 1,
             _ => 0,
         }
     }
